@@ -157,6 +157,36 @@ def reachable_loops(func, owner=None, kind=ast.While, depth=2):
     return out
 
 
+def lock_name():
+    """The name of the Connection attribute that holds the write lock (found by type on a real instance, so that a
+    renamed private attribute does not break the harnesses or the call-site scan)."""
+    import threading
+    from minecraft.networking.connection import Connection
+    rl = type(threading.RLock())
+    names = [k for k, v in Connection('localhost', 25565, username='u').__dict__.items() if isinstance(v, rl)]
+    return names[0] if len(names) == 1 else '_write_lock'
+
+
+def harness_connection(**attrs):
+    """For SYMBOLIC units: a Connection that did not run its own __init__ (the unit decides what state it is in) but that
+    starts with every attribute the real constructor creates, under the names the working tree uses - so that a new or
+    renamed private attribute does not make the harness unfit.  The unit then overrides what it models."""
+    from minecraft.networking.connection import Connection
+    c = object.__new__(Connection)
+    c.__dict__.update(Connection('localhost', 25565, username='u').__dict__)
+    c.__dict__.update(attrs)
+    return c
+
+
+def native_connection(**attrs):
+    """For NATIVE harnesses (replays, bounded parts): a real Connection built by its own constructor - every attribute the
+    code may use exists under whatever (private) name the code gives it - with the given attributes then overridden."""
+    from minecraft.networking.connection import Connection
+    c = Connection('localhost', 25565, username='u')
+    c.__dict__.update(attrs)
+    return c
+
+
 class ByIterable(object):
     """A loop contract attached by ROLE: it applies to whichever for loop iterates over an object accepted by `accepts`;
     any other loop that happens to carry the same key is executed normally."""
